@@ -48,6 +48,28 @@ Theorem C15 : forall (LOG : list N) (evs : list iev), N.of_nat (length LOG) < 2 
 Proof. exact ideal_c15. Qed.
 Print Assumptions C15.
 
+(* ... and the copy stays servable: in the state after ANY event list, for every mirror checkpoint
+   signed so far, the store holds every tile of its tree or the full tile that extends it, and
+   every entry bundle or the full bundle, with exactly the contents determined by the honest log
+   (later uploads never change an object's contents; the garbage collector of C18 removes a partial
+   tile only next to its full tile). *)
+Theorem C15_stays_servable : forall (LOG : list N) (evs : list iev), N.of_nat (length LOG) < 2 ^ 62 ->
+  let w := irun LOG evs in
+  forall r, In r (w_signed w) ->
+    let n := ck_size (sr_ck r) in
+    (forall t, In t (tiles_needed n) ->
+       lookup (w_store w) (KHash t) =
+         Some (OHash (tile_hashes ih INode (iLH LOG) (tc_L t) (tc_N t) (tc_W t))) \/
+       lookup (w_store w) (KHash (mkT (tc_L t) (tc_N t) 256)) =
+         Some (OHash (tile_hashes ih INode (iLH LOG) (tc_L t) (tc_N t) 256))) /\
+    (forall j, j * 256 < n ->
+       lookup (w_store w) (KData j (N.min 256 (n - j * 256))) =
+         Some (OData (firstn (N.to_nat (N.min 256 (n - j * 256))) (skipn (N.to_nat (j * 256)) LOG))) \/
+       lookup (w_store w) (KData j 256) =
+         Some (OData (firstn (N.to_nat 256) (skipn (N.to_nat (j * 256)) LOG)))).
+Proof. exact ideal_c15_persist. Qed.
+Print Assumptions C15_stays_servable.
+
 (* Authentication before write: a package step changes the object store only if the package
    could be read completely and torchwood.CheckSubtree accepted its proof, against the resolved
    checkpoint, for the RFC 6962 hash of the uploaded entries (preceded, for an unaligned start, by
